@@ -6,6 +6,7 @@ pub mod dsp;
 pub mod engine_case;
 pub mod engine_util;
 pub mod faults;
+pub mod fuzz_support;
 pub mod hts_reader;
 pub mod isolate;
 pub mod props;
